@@ -3,6 +3,7 @@ package scen
 import (
 	"bytes"
 	"fmt"
+	"github.com/multiformats/go-multiaddr"
 	"strings"
 
 	"github.com/ipfs/go-cid"
@@ -114,7 +115,15 @@ func (h headFields) verifies() (peer.ID, bool) {
 	return id, err == nil
 }
 
-const c03Fields = 18
+const c03BaseFields = 18
+
+// c03Suffixed: field-level alterations repeated with the publisher's address
+// given as <addr>/p2p/<id> (suffix 1: its own ID, 2: the other identity's ID)
+// while AddrInfo.ID names the publisher: the ID inside an address must not
+// change whose signature is expected.
+var c03Suffixed = []struct{ field, suffix int }{{5, 2}, {6, 2}, {3, 2}, {7, 2}, {8, 2}, {0, 2}, {5, 1}, {16, 1}}
+
+const c03Fields = c03BaseFields + 8
 
 func c03P(tier string) int {
 	if tier == "thorough" {
@@ -154,11 +163,19 @@ var c03FieldNames = []string{"cid->older ad", "topic added/changed", "topic remo
 	"valid head re-signed by another identity (same CID)", "valid head of another identity for another CID", "key of P2 with sig of P1", "key of P1 with sig of P2",
 	"same publisher, other topic, validly signed", "empty body", "{}", "sig field removed", "pubkey field removed", "sig emptied", "pubkey emptied", "head of P1 for an older root (valid, stale)", "trailing bytes appended"}
 
+func c03FieldName(f int) string {
+	if f < c03BaseFields {
+		return c03FieldNames[f]
+	}
+	e := c03Suffixed[f-c03BaseFields]
+	return c03FieldNames[e.field] + [...]string{"", "; address given with the publisher's own /p2p ID", "; address given with /p2p/<the other identity>"}[e.suffix]
+}
+
 func c03Describe(c int) string {
 	k := c03Decode(c, "quick")
 	alt := fmt.Sprintf("bit flip at relative position %d/%d", k.alt, k.p)
 	if k.alt >= k.p {
-		alt = c03FieldNames[k.alt-k.p]
+		alt = c03FieldName(k.alt - k.p)
 	}
 	return fmt.Sprintf("key=%s topic=%v discovery=%v direct-GetHead=%v: %s", KeyTypes[k.key], k.topic, k.discovery, k.direct, alt)
 }
@@ -199,6 +216,14 @@ func runC03(r *simkit.Run, c Cfg) {
 		} else {
 			k.alt = tp.Choose(k.p, "bytePos")
 		}
+	}
+	// the /p2p suffix on the address handed to the sync call
+	suffix, field := 0, k.alt-k.p
+	if field >= c03BaseFields {
+		e := c03Suffixed[field-c03BaseFields]
+		suffix, field = e.suffix, e.field
+	} else if c.Case < 0 && tp.Chance(1, 3, "suffixed") {
+		suffix = 1 + tp.Choose(2, "suffix")
 	}
 	p1 := KeyedIdentity(KeyTypes[k.key], 1, "P1")
 	otherType := KeyTypes[k.key]
@@ -242,7 +267,7 @@ func runC03(r *simkit.Run, c Cfg) {
 				bitFlip = pos
 			} else {
 				f := of
-				switch k.alt - k.p {
+				switch field {
 				case 0:
 					f.cid = older
 					out = rebuildHead(f, of.topic != "", false, false)
@@ -339,14 +364,28 @@ func runC03(r *simkit.Run, c Cfg) {
 	latest0 := sub.Latest(pub)
 
 	// Phase 1: the attack.
-	idOnly := !k.direct && (c.Case >= 0 && k.alt%2 == 1 || c.Case < 0 && tp.Chance(1, 2, "idOnly"))
+	idOnly := suffix == 0 && !k.direct && (c.Case >= 0 && k.alt%2 == 1 || c.Case < 0 && tp.Chance(1, 2, "idOnly"))
+	withSuffix := func(ai peer.AddrInfo) peer.AddrInfo {
+		if suffix == 0 {
+			return ai
+		}
+		id := p1.ID
+		if suffix == 2 {
+			id = p2.ID
+		}
+		for i, a := range ai.Addrs {
+			ai.Addrs[i] = a.Encapsulate(must(multiaddr.NewMultiaddr("/p2p/" + id.String())))
+		}
+		r.Probe(fmt.Sprintf("address-with-p2p-suffix-%d", suffix))
+		return ai
+	}
 	attack = true
 	req0 := len(w.Net.Requests())
 	var res *result
 	if k.direct {
 		cl := ipnisync.NewSync(sub.LS, nil)
 		res = run("GetHead", func() (cid.Cid, error) {
-			sy, err := cl.NewSyncer(pub.AddrInfo())
+			sy, err := cl.NewSyncer(withSuffix(pub.AddrInfo()))
 			if err != nil {
 				return cid.Undef, err
 			}
@@ -357,7 +396,7 @@ func runC03(r *simkit.Run, c Cfg) {
 			cl.Close()
 		}()
 	} else {
-		target := pub.AddrInfo()
+		target := withSuffix(pub.AddrInfo())
 		if idOnly {
 			// sync by ID alone: the address remembered from the earlier
 			// sync is used, and the per-publisher sync client is rebuilt
@@ -381,7 +420,7 @@ func runC03(r *simkit.Run, c Cfg) {
 	r.Fault("rewrite")
 	desc := fmt.Sprintf("bit flip at byte %d of %d", bitFlip, len(origSeen))
 	if k.alt >= k.p {
-		desc = c03FieldNames[k.alt-k.p]
+		desc = c03FieldName(k.alt - k.p)
 	}
 	switch {
 	case accepted && !legit:
